@@ -192,6 +192,16 @@ def run(F, R):
     if R.floor("C04-R2", "InstallerError events", len(ierr), 1):
         r_ = reach(S, [entry], cut_edges=haserr)
         R.check("C04-R2", "installer-error-only-with-errors", not any(x in r_ for x in ierr), "InstallerError only when the error list is non-empty", "InstallerError reachable with an empty error list")
+        # the collected errors reach that loop as collected: nothing removes or merges entries in between
+        hb_ = hdr.bv
+        shrink = []
+        for bi_, t_ in hb_.calls():
+            if not t_.get("argt") or t_.get("name") in ("push", "iter", "into_iter", "is_empty", "len", "new", "with_capacity", "deref", "as_slice", "first", "last", "get"):
+                continue
+            ty0 = hb_.crate.types[t_["argt"][0]]
+            if ty0.get("k") == "ref" and ty0.get("m") and "Vec<" in ty0["s"] and "Installer>::Error" in ty0["s"]:
+                shrink.append((t_.get("name"), lib.loc(hb_, bi_)))
+        R.check("C04-R2", "installer-errors-not-filtered", not shrink, "the error list is only appended to before it is announced", "the collected installer errors are modified before being announced (%s): fewer InstallerError events than failed apps" % shrink)
         loops = [L_ for L_ in comps if any(x in L_ for x in ierr)]
         R.check("C04-R2", "one-installer-error-per-error", len(loops) == 1, "InstallerError is emitted in a loop over the collected errors", "InstallerError is not emitted once per collected error")
     # an install without failed apps always gets to the reboot question (otherwise WaitingForReboot cannot follow a pending reboot)
